@@ -359,14 +359,32 @@ func (g *c35G) timeStr() string {
 	return tm.Format(time.RFC3339Nano)
 }
 
+// pageNum: a pagination integer: the normal value, or a boundary of the 31-bit unsigned parser.
+func (g *c35G) pageNum(normal int) string {
+	switch g.oddCase(2, 4) {
+	case 0:
+		return g.pick("0", "00")
+	case 3:
+		return g.pick("1", "2", "2147483647", "2147483648", "4294967295", "4294967296", "18446744073709551615")
+	case 1:
+		return g.pick("-1", "-0", "+1", "1.5", "1e3", "0x10", " 1", "", "x", "٣")
+	case 2:
+		return g.num()
+	}
+	return fmt.Sprint(normal)
+}
+
 func (g *c35G) genAPI() *c35Input {
 	in := g.httpInput("api", "tcp", "api")
 	rt := c35APIRoutes[g.x.Intn(len(c35APIRoutes))]
+	if g.chance(5) { // the lists that are never empty on this server
+		rt = c35APIRoutes[[]int{6, 12, 16, 41}[g.x.Intn(4)]]
+	}
 	pag := func() string {
-		if g.chance(2) {
+		if g.chance(3) {
 			return ""
 		}
-		return g.query("itemsPerPage", g.numOr(fmt.Sprint(g.rng(1, 100)), 2), "page", g.numOr(fmt.Sprint(g.rng(0, 3)), 2))
+		return g.query("itemsPerPage", g.pageNum(g.rng(1, 100)), "page", g.pageNum(g.rng(0, 3)))
 	}
 	name := func() string { return g.oddPath(g.path()) }
 	in.Cls = "api-" + rt.kind
@@ -386,7 +404,7 @@ func (g *c35G) genAPI() *c35Input {
 		}
 		g.addReq(in, g.httpReq(rt.method, rt.route+g.uuidish(), body, ""), true)
 	case "forwardlist":
-		g.addReq(in, g.httpReq(rt.method, rt.route+g.query("path", g.path(), "itemsPerPage", g.num(), "page", g.num()), nil, ""), false)
+		g.addReq(in, g.httpReq(rt.method, rt.route+g.query("path", g.path(), "itemsPerPage", g.pageNum(10), "page", g.pageNum(0)), nil, ""), false)
 	case "forwardget":
 		g.addReq(in, g.httpReq(rt.method, rt.route+g.query("path", g.path(), "id", g.uuidish()), nil, ""), false)
 	case "write":
